@@ -812,7 +812,9 @@ def _path_segment(element):
     name = element.name
     if name in (".", ".."):
         return name.replace(".", "\\.")
-    return name.replace("/", "\\/").replace("[", "\\[")
+    escaped = name.replace("/", "\\/").replace("[", "\\[")
+    # a literal backslash before '.' or ']' would be read back as an escape
+    return escaped.replace("\\.", "\\\\.").replace("\\]", "\\\\]")
 
 
 def validate_element(element, state, validators):
